@@ -269,4 +269,29 @@ Corruptions ==
        [name |-> "atomiclen1", b |-> bad(base \o <<64, 6, 1, 0>>, nl)],
        [name |-> "aggrlen5", b |-> bad(base \o <<192, 7, 5, 0, 0, 1, 2, 3>>, nl)],
        [name |-> "origidlen3", b |-> bad(base \o <<128, 9, 3, 1, 1, 1>>, nl)]}
+   \* every attribute of fixed length, one octet too short and one too long (and AGGREGATOR in the width of the other AS mode)
+   \cup {[name |-> "origin-len0", b |-> bad(<<64, 1, 0>> \o Drop(base, 4), nl)],
+         [name |-> "nexthop-len0", b |-> bad(<<64, 1, 1, 0, 64, 2, 0, 64, 3, 0>>, nl)],
+         [name |-> "med-len5", b |-> bad(base \o <<128, 4, 5, 0, 0, 0, 1, 0>>, nl)],
+         [name |-> "med-len0", b |-> bad(base \o <<128, 4, 0>>, nl)],
+         [name |-> "lp-len3", b |-> bad(base \o <<64, 5, 3, 0, 0, 1>>, nl)],
+         [name |-> "lp-len0", b |-> bad(base \o <<64, 5, 0>>, nl)],
+         [name |-> "atomic-len4", b |-> bad(base \o <<64, 6, 4, 0, 0, 0, 0>>, nl)],
+         [name |-> "aggr-len7", b |-> bad(base \o <<192, 7, 7, 0, 0, 1, 2, 3, 4, 5>>, nl)],
+         [name |-> "aggr-len9", b |-> bad(base \o <<192, 7, 9, 0, 0, 253, 233, 1, 2, 3, 4, 0>>, nl)],
+         [name |-> "aggr-len6-on-as4", b |-> bad(base \o <<192, 7, 6, 253, 233, 1, 2, 3, 4>>, nl)],
+         [name |-> "aggr-len0", b |-> bad(base \o <<192, 7, 0>>, nl)],
+         [name |-> "origid-len5", b |-> bad(base \o <<128, 9, 5, 1, 1, 1, 1, 0>>, nl)],
+         [name |-> "origid-len0", b |-> bad(base \o <<128, 9, 0>>, nl)],
+         [name |-> "as4aggr-len7", b |-> bad(base \o <<192, 18, 7, 0, 0, 253, 233, 1, 2, 3>>, nl)],
+         [name |-> "as4aggr-len12", b |-> bad(base \o <<192, 18, 12, 0, 0, 253, 233, 1, 2, 3, 4, 0, 0, 0, 0>>, nl)]}
+\* the same kind of corruption on a 2-octet-AS session (AGGREGATOR is 6 octets there)
+Base2 == EncAttrs(Base(FALSE), FALSE, FALSE)
+Corruptions2 ==
+   LET bad(attrsBytes) == U16(0) \o U16(Len(attrsBytes)) \o attrsBytes \o EncPrefix(P6[6]) IN
+   {[name |-> "as2-aggr-len5", b |-> bad(Base2 \o <<192, 7, 5, 253, 233, 1, 2, 3>>)],
+    [name |-> "as2-aggr-len7", b |-> bad(Base2 \o <<192, 7, 7, 253, 233, 1, 2, 3, 4, 0>>)],
+    [name |-> "as2-aggr-len8", b |-> bad(Base2 \o <<192, 7, 8, 0, 0, 253, 233, 1, 2, 3, 4>>)],
+    [name |-> "as2-as4aggr-len12", b |-> bad(Base2 \o <<192, 7, 6, 253, 233, 1, 2, 3, 4>> \o <<192, 18, 12, 0, 0, 253, 233, 1, 2, 3, 4, 0, 0, 0, 0>>)],
+    [name |-> "as2-as4aggr-len6", b |-> bad(Base2 \o <<192, 7, 6, 253, 233, 1, 2, 3, 4>> \o <<192, 18, 6, 0, 0, 253, 233, 1, 2>>)]}
 =============================================================================
